@@ -84,9 +84,11 @@ func (v *value) set(v1, v2 uint64) error {
 	if err := os.Rename(curPath, newPath); err != nil {
 		return err
 	}
+	verifPoint(v, "value.renamed")
 	if err := syncDir(v.dir); err != nil {
 		return err
 	}
+	verifPoint(v, "value.synced")
 	v.v1, v.v2 = v1, v2
 	return nil
 }
